@@ -62,7 +62,7 @@ def probes():
             "missing_file_created", "second_sync_noop_checked", "truth_class", "truth_function", "truth_argparse",
             "fault_fired", "crash_fired", "recovery_delete", "recovery_empty", "recovery_restore", "convergence_checked",
             "user_edit", "restart", "method_target", "black_absent", "decoy_same_name_nested", "class_target_with_unannotated_attribute", "third_sync_noop_checked",
-            "one_file_listed_for_two_roles", "truth_read_checked_against_spec"]
+            "one_file_listed_for_two_roles", "truth_read_checked_against_spec", "file_with_form_feed_line"]
 
 
 # ------------------------------------------------------------------------------------ generators
@@ -87,7 +87,8 @@ def project(draw):
             "shared": draw(st.integers(0, 5)) == 5,
             "legacy_attr": draw(st.integers(0, 4)) == 4,
             # how an argparse file spells `choices=`: tuple (most common), list or set literal
-            "choices_form": draw(st.sampled_from(("tuple", "tuple", "list", "set")))}
+            "choices_form": draw(st.sampled_from(("tuple", "tuple", "list", "set"))),
+            "formfeed": draw(st.integers(0, 5)) == 5}
 
 
 @st.composite
@@ -151,6 +152,10 @@ def render_file(p, kind, spec, state):
     if state == "empty":
         return ""
     head = "from typing import Literal, Optional\n\nLIMIT = 10\n\n\n"
+    if p.get("formfeed"):
+        # a page-break line (form feed, as in GNU-style sources) between the sections of the file: white space to Python,
+        # a line break to str.splitlines but not to the parser's line numbering
+        head = "from typing import Literal, Optional\n\nLIMIT = 10\n\x0c\n\n"
     parts = [head]
     if p["extras"]:
         parts.append(HELPER + "\n\n")
@@ -341,6 +346,8 @@ def simulate(plan):
         bump(probe, "method_target")
     if p.get("decoy"):
         bump(probe, "decoy_same_name_nested")
+    if p.get("formfeed"):
+        bump(probe, "file_with_form_feed_line")
     if p.get("legacy_attr") and p["states"]["class"] == "present":
         bump(probe, "class_target_with_unannotated_attribute")
     world = SimWorld(tag="c12")
